@@ -74,7 +74,7 @@ pub fn check_issued(spec: &IssueSpec, tree: &MNode, issued: &str) -> Result<(cra
         }
     }
     // (1) reconstruction == U
-    if claims != spec.claims {
+    if crate::exact::differs(&claims, &spec.claims) {
         return Err(fail(
             "issued:reconstruction",
             format!("payload + all disclosures do not reconstruct the claims\n  expected: {}\n  got:      {}", spec.claims, claims),
@@ -95,7 +95,7 @@ pub fn check_issued(spec: &IssueSpec, tree: &MNode, issued: &str) -> Result<(cra
     }
     // (3) visible skeleton
     let want_skeleton = view(tree, &BTreeSet::new());
-    if skeleton != want_skeleton {
+    if crate::exact::differs(&skeleton, &want_skeleton) {
         return Err(fail(
             "issued:skeleton",
             format!("clear-text part of the payload differs from the always-visible part\n  expected: {}\n  got:      {}", want_skeleton, skeleton),
